@@ -344,7 +344,7 @@ def run(ctx):
         levels = P.gen_precedence(REPO)
     ctx.cov["precedence_levels_from_bnf"] = [[ops, a, k] for ops, a, k in levels]
     forbidden_gate(ctx, ["Base", "C14"])
-    ok, why = check_props(ctx, "C14/Props.v", ["C14/Harness.vo", "C14/Proofs.vo", "C14/StackProofs.vo", "C14/PrecProofs.vo", "C14/InterpProofs.vo", "C14/ScopeProofs.vo", "C14/DepthProofs.vo", "C14/ArrayProofs.vo"])
+    ok, why = check_props(ctx, "C14/Props.v", ["C14/Harness.vo", "C14/Proofs.vo", "C14/StackProofs.vo", "C14/PrecProofs.vo", "C14/InterpProofs.vo", "C14/ScopeProofs.vo", "C14/DepthProofs.vo", "C14/ArrayProofs.vo", "C14/HofProofs.vo"])
     bad, trees, block = P.behavioural_tie(ctx, 150 if ctx.tier == "quick" else 3000)
     if bad:
         ctx.violation(bad, found_input="expression" in bad)
